@@ -30,14 +30,14 @@ def is_opaque(x):
 # function per (sequence, f) that is unfolded one step at the index it is asked for
 # (pyvc.models.q_sum_prefix / q_count_prefix).  `f` / `pred` must be module-level functions.
 
-def sum_prefix(xs, k, f):
-    """f(xs[0]) + ... + f(xs[k-1])"""
-    return sum(f(xs[j]) for j in range(k))
+def sum_prefix(xs, k, f, *extra):
+    """f(xs[0], *extra) + ... + f(xs[k-1], *extra)"""
+    return sum(f(xs[j], *extra) for j in range(k))
 
 
-def count_prefix(xs, k, pred):
-    """number of j < k with pred(xs[j])"""
-    return sum(1 for j in range(k) if pred(xs[j]))
+def count_prefix(xs, k, pred, *extra):
+    """number of j < k with pred(xs[j], *extra)"""
+    return sum(1 for j in range(k) if pred(xs[j], *extra))
 
 
 def nat_of_str(s):
